@@ -5,6 +5,8 @@ Ledgers come from the generator in c17.py.
 """
 from __future__ import annotations
 
+import copy
+import datetime
 import decimal
 import json
 import re
@@ -249,6 +251,7 @@ class HistoryRun(DocRun):
         from autobean_refactor.models import block_comment
         f = c17.parse_file(self.text)
         self.store = f.token_store
+        top = f
         parents = [m for m in c17.walk(f) if hasattr(type(m), 'raw_meta_with_comments')]
         if not parents:
             return self
@@ -257,6 +260,21 @@ class HistoryRun(DocRun):
             parent = postings[(self.parent_index // 2) % len(postings)]
         else:
             parent = parents[(self.parent_index // 2) % len(parents)]
+        if self.ops and self.ops[0][0] == 'from_value':
+            # a node constructed from values with a configured indent_by (no file around it)
+            _, fkind, findent, fby = self.ops[0]
+            if fkind == 'posting':
+                parent = models.Posting.from_value('Assets:Foo', decimal.Decimal(1), 'USD', indent=findent, indent_by=fby)
+            elif fkind == 'txn':
+                parent = models.Transaction.from_value(datetime.date(2000, 1, 1), None, 'n', postings=[], indent_by=fby)
+            else:
+                parent = models.Open.from_value(datetime.date(2000, 1, 1), 'Assets:Foo', indent_by=fby)
+            top = parent
+            self.store = parent.token_store
+            if parent.indent_by != fby:
+                self.fail('C18:copy-indent-by', f'{type(parent).__name__}.from_value(indent_by={fby!r}).indent_by = '
+                          f'{parent.indent_by!r}', 1)
+            self.stat('hist:from_value')
         is_posting = isinstance(parent, models.Posting)
         head = (f'mkhcase {self.coq_optstr(self.parent_indent(parent))} {common.coq_str(parent.indent_by)} '
                 f'{self.coq_items(self.items_of(parent))}')
@@ -264,6 +282,48 @@ class HistoryRun(DocRun):
         for k, op in enumerate(self.ops, 1):
             kind = op[0]
             if kind in ('indent', 'comment') and not is_posting:
+                continue
+            if kind == 'from_value':
+                continue
+            if kind == 'deepcopy':
+                scope = op[1]
+                root = parent
+                if scope == 'file':
+                    root = top
+                elif scope == 'txn':
+                    root = next((d for d in (getattr(top, 'raw_directives', None) or [])
+                                 if any(x is parent for x in c17.walk(d))), parent)
+                nodes = c17.walk(root)
+                pos = next(n for n, x in enumerate(nodes) if x is parent)
+                root_text = ''.join(t.raw_text for t in root.tokens)
+                before = (self.items_of(parent), self.parent_indent(parent), parent.indent_by)
+                try:
+                    cp = copy.deepcopy(root)
+                except Exception as e:
+                    self.fail('C18:unexpected-exception', f'step {k}: deepcopy raised {type(e).__name__}: {e}', k)
+                    break
+                new_parent = c17.walk(cp)[pos]
+                self.stat('hist:deepcopy/' + scope + ('/non-default-indent_by' if parent.indent_by != '    ' else ''))
+                if type(new_parent) is not type(parent) or ''.join(t.raw_text for t in cp.tokens) != root_text:
+                    self.fail('C18:frame', f'step {k}: the deep copy of {type(root).__name__} does not print as the '
+                              f'original', k)
+                    break
+                if new_parent.indent_by != parent.indent_by:
+                    self.fail('C18:copy-indent-by', f'step {k}: deep copy of {type(root).__name__}: the copied '
+                              f'{type(parent).__name__} has indent_by {new_parent.indent_by!r}, the original '
+                              f'{parent.indent_by!r}', k)
+                parent = new_parent
+                self.store = cp.token_store
+                if scope == 'file' or root is top:
+                    top = cp
+                else:
+                    top = cp
+                after = (self.items_of(parent), self.parent_indent(parent), parent.indent_by)
+                if after[:2] != before[:2]:
+                    self.fail('C18:frame', f'step {k}: the deep copy changed an indent: {before!r} -> {after!r}', k)
+                steps.append(f'(HDeepCopy, {self.obs(parent, 0)})')
+                if self.fails:
+                    break
                 continue
             text_b = self.printed()
             lines_b = lines_of(text_b)
@@ -438,12 +498,36 @@ def gen_history(rng) -> list[list]:
             return ['clear']
         if r < 0.82:
             return ['indent_by', rng.choice(INDENT_BYS)]
-        if r < 0.90:
+        if r < 0.88:
             return ['indent', nonempty_ws()]
+        if r < 0.92:
+            return ['deepcopy', rng.choice(['node', 'txn', 'file'])]
         return ['comment', rng.choice(['leading', 'trailing']),
                 rng.choice(['note', 'two\nlines', '', None, 'x\n'])]
     n = rng.randrange(3, 9)
-    if rng.random() < 0.5:
+    r0 = rng.random()
+    if r0 < 0.3:
+        # configure indent_by (assignment or from_value), deep-copy the node / its transaction / the file, then
+        # use the default rule under the copy
+        by = rng.choice(['\t', '  ', '      ', '\t', ' \t', ''])
+        hist = []
+        if rng.random() < 0.3:
+            hist.append(['from_value', rng.choice(['open', 'posting', 'posting', 'txn']), nonempty_ws(), by])
+        else:
+            hist.append(['indent_by', by])
+        if rng.random() < 0.3:
+            hist.append(rand_op())
+        if rng.random() < 0.5:
+            hist.append(['clear'])
+        hist.append(['deepcopy', rng.choice(['node', 'txn', 'file'])])
+        if rng.random() < 0.2:
+            hist.append(['deepcopy', rng.choice(['node', 'txn', 'file'])])
+        hist.append(['clear'])
+        hist.append(['set', next(fresh), 's'])
+        while len(hist) < n:
+            hist.append(rand_op())
+        return hist
+    if r0 < 0.65:
         # use the default rule, empty the block again, change what the rule reads, use the rule again
         k1 = next(fresh)
         hist = [['clear'], ['set', k1, 's'], rng.choice([['clear'], ['pop'], ['del', k1]]),
@@ -560,7 +644,8 @@ def run(ctx: common.Ctx):
                 'comments, CRLF) parsed with the real Parser; per ledger a seeded history of indent_by assignments, '
                 'mapping assignments (new and existing keys), raw appends/inserts of MetaItem and BlockComment with '
                 'their own indent, leading/trailing comment assignments on postings and meta items; plus histories of 3-8 '
-                'steps on one entry/posting mixing those with del/pop/clear, indent_by = ..., posting.indent = ... (half of '
+                'steps on one entry/posting (parsed, or built with from_value(indent_by=...)) mixing those with del/pop/clear, '
+                'indent_by = ..., posting.indent = ..., copy.deepcopy of the node / its transaction / the file (third of '
                 'them: use the default rule, empty the block, change indent/indent_by, use the rule again); a case is '
                 'non-trivial when an insertion rule or a comment creation was exercised; distinct by (size, ops, rules)')
     ctx.assumptions += ['the tree/token mechanics of insertion (RepeatedNodeWrapper._insert_tokens) belong to C03; here the '
